@@ -22,6 +22,12 @@ RNT = "include/manif/impl/rn/RnTangent_base.h"
 BB = "include/manif/impl/bundle/Bundle_base.h"
 SO3B = "include/manif/impl/so3/SO3_base.h"
 
+SE2T = "include/manif/impl/se2/SE2Tangent_base.h"
+SO3T = "include/manif/impl/so3/SO3Tangent_base.h"
+SO2T = "include/manif/impl/so2/SO2Tangent_base.h"
+SGT = "include/manif/impl/sgal3/SGal3Tangent_base.h"
+BT = "include/manif/impl/bundle/BundleTangent_base.h"
+
 MUTANTS = [
     # ---------------- R-EFFECT (C14, C09) ----------------------------------------------------
     B("effect-static-nonconst", ["C14", "C09"],
@@ -40,6 +46,37 @@ MUTANTS = [
       [(RNT, "static const Jacobian Jr = Jacobian::Identity();", "const static Jacobian Jr = Jacobian::Identity();", 1)]),
     N("effect-drop-static", ["C14", "C09"],
       [(RNT, "static const Jacobian Jr = Jacobian::Identity();", "const Jacobian Jr = Jacobian::Identity();", 1)]),
+    # ---------------- R-TABLE (C07, C06.a) --------------------------------------------------------
+    B("table-se3-generator-sign", ["C07"],
+      [(SE3T, "                             Scalar(-1), Scalar(0), Scalar(0), Scalar(0),\n                             Scalar( 0), Scalar(0), Scalar(0), Scalar(0) ).finished());\n        return E4;",
+        "                             Scalar( 1), Scalar(0), Scalar(0), Scalar(0),\n                             Scalar( 0), Scalar(0), Scalar(0), Scalar(0) ).finished());\n        return E4;", 1)],
+      ["R-TABLE.hat", "SE3Tangent"]),
+    B("table-so3-vee-swapped", ["C07"],
+      [(SO3T, "t.coeffs() << v(2, 1), v(0, 2), v(1, 0);", "t.coeffs() << v(2, 1), v(2, 0), v(1, 0);", 1)],
+      ["R-TABLE.vee", "SO3Tangent"]),
+    B("table-se2-smalladj-sign", ["C07", "C06"],
+      [(SE2T, "  smallAdj(0,2) =  y();", "  smallAdj(0,2) = -y();", 1)],
+      ["R-TABLE.smallAdj", "SE2Tangent"]),
+    B("table-se2-innerweights", ["C07"],
+      [(SE2T, "                               Scalar(0), Scalar(0), Scalar(2) ).finished()", "                               Scalar(0), Scalar(0), Scalar(1) ).finished()", 1)],
+      ["R-TABLE.inner", "SE2Tangent"]),
+    B("table-se3-generator-no-throw", ["C07"],
+      [(SE3T, "      default:\n        MANIF_THROW(\"Index i must be in [0,5]!\", invalid_argument);\n        break;", "      default:\n        break;", 1)],
+      ["R-TABLE.generator-range", "SE3Tangent"]),
+    B("table-so2-generator-range-off-by-one", ["C07"],
+      [(SO2T, "MANIF_CHECK(i==0,", "MANIF_CHECK(i<=1,", 1)],
+      ["R-TABLE.generator-range", "SO2Tangent"]),
+    B("table-bundle-generator-offset-kind", ["C07"],
+      [(BT, "      std::get<_Idx>(internal::traits<Derived>::AlgIdx),\n      std::get<_Idx>(internal::traits<Derived>::AlgIdx)\n    ) = (", "      std::get<_Idx>(internal::traits<Derived>::AlgIdx),\n      std::get<_Idx>(internal::traits<Derived>::DoFIdx)\n    ) = (", 1)],
+      ["R-TABLE", "BundleTangent"]),
+    B("table-sgal3-hat-time-slot", ["C07"],
+      [(SGT, "  sgal3(3, 4) = t();", "  sgal3(4, 3) = t();\n  sgal3(3, 4) = Scalar(0);", 1)],
+      ["R-TABLE", "SGal3Tangent"]),
+    N("table-se2-smalladj-comma-init", ["C07", "C06"],
+      [(SE2T, "  Jacobian smallAdj = Jacobian::Zero();\n\n  smallAdj(0,1) = -angle();\n  smallAdj(1,0) =  angle();\n  smallAdj(0,2) =  y();\n  smallAdj(1,2) = -x();\n",
+        "  Jacobian smallAdj;\n  smallAdj << Scalar(0), -angle(), y(),\n              angle(), Scalar(0), -x(),\n              Scalar(0), Scalar(0), Scalar(0);\n", 1)]),
+    N("table-so3-vee-via-accessors", ["C07"],
+      [(SO3T, "t.coeffs() << v(2, 1), v(0, 2), v(1, 0);", "t.coeffs()(0) = v(2, 1);\n    t.coeffs()(1) = -v(2, 0);\n    t.coeffs()(2) = v(1, 0);", 1)]),
     # ---------------- R-DA / R-GUARD / R-BLOCK / R-NOALIAS (C05, C06, C09) ---------------------
     B("da-se3-adj-missing-zero-block", ["C06"],
       [(SE3B, "  Adj.template bottomLeftCorner<3,3>().setZero();\n", "", 1)],
